@@ -452,7 +452,7 @@ impl Prop for C03 {
         "fault_enumeration"
     }
     fn rule_text(&self) -> String {
-        "case = a valid configuration (shipped samples, configs embedded in docs and tests, grammar-generated configs) with one seeded fault on the storage seam: torn prefix, corrupted bytes near delimiters / multi-byte chars, lost/duplicated/reordered lines, unterminated string/comment, include/zippy/chords-v2 file missing / empty / self-including / included twice / not UTF-8 / a directory; plus structure-aware input mutations (delete/duplicate/splice sub-expressions, atom->(), name->unknown, $self-reference, number->boundary) labelled as mutation.* in 'fired'; plus a 'deep-nesting' population (lists and actions nested 60 - 5000 levels deep, literally or through chains of variables / templates) and a 'template-program' population (random deftemplate bodies and call arguments drawn from a pool that contains t!/template-expand, the template names incl. the template's own, variables, conditionals, nested lists - expansions that arise by substitution). Both new_from_str (in-memory file provider) and new_from_file (real files in a private tmpfs dir) are exercised. non-trivial = the text differs from its seed config and is non-empty; distinct = distinct (outcome class, hash of error message shape | accepted) x text hash.".into()
+        "case = a valid configuration (shipped samples, configs embedded in docs and tests, grammar-generated configs) with one seeded fault on the storage seam: torn prefix, corrupted bytes near delimiters / multi-byte chars, lost/duplicated/reordered lines, unterminated string/comment, include/zippy/chords-v2 file missing / empty / self-including / included twice / not UTF-8 / a directory; plus structure-aware input mutations (delete/duplicate/splice sub-expressions, atom->(), name->unknown, $self-reference, number->boundary) labelled as mutation.* in 'fired'; plus a 'capacity' population (764-770 virtual keys over several deffakekeys / defvirtualkeys blocks: the row has 767 columns); plus a 'deep-nesting' population (lists and actions nested 60 - 5000 levels deep, literally or through chains of variables / templates) and a 'template-program' population (random deftemplate bodies and call arguments drawn from a pool that contains t!/template-expand, the template names incl. the template's own, variables, conditionals, nested lists - expansions that arise by substitution). Both new_from_str (in-memory file provider) and new_from_file (real files in a private tmpfs dir) are exercised. non-trivial = the text differs from its seed config and is non-empty; distinct = distinct (outcome class, hash of error message shape | accepted) x text hash.".into()
     }
     fn runs(&self, tier: Tier) -> u64 {
         match tier {
@@ -498,6 +498,31 @@ impl Prop for C03 {
             if case.cfg.len() > 64 * 1024 {
                 case.cfg.truncate(64 * 1024);
             }
+            return case;
+        }
+        if r.chance(2) {
+            // 'capacity' population: item counts right at the fixed capacities of the loader
+            // (the virtual-key row has 767 columns): 764..770 virtual keys, split over any
+            // number of deffakekeys / defvirtualkeys blocks, the last ones used by a key and a
+            // sequence. One key more or fewer must make the difference between a loaded
+            // configuration and a diagnostic, nothing else.
+            let total = r.range(764, 770) as usize;
+            let mut t = String::from("(defsrc a b)\n");
+            let mut made = 0usize;
+            while made < total {
+                let n = (r.range(1, 500) as usize).min(total - made);
+                let (head, act) = if r.chance(500) { ("deffakekeys", "XX") } else { ("defvirtualkeys", "x") };
+                t.push_str(&format!("({head}"));
+                for i in made..made + n {
+                    t.push_str(&format!(" k{i} {act}"));
+                }
+                t.push_str(")\n");
+                made += n;
+            }
+            t.push_str(&format!("(deflayer l0 (on-press tap-vkey k{}) (on-press toggle-vkey k{}))\n(defseq k{} (a b))\n", total - 1, total / 2, total - 1));
+            case.cfg = t;
+            case.set("base", "capacity");
+            case.set("fault", "mutation.capacity_boundary");
             return case;
         }
         if r.chance(40) {
